@@ -551,6 +551,151 @@ def run(ctx):
           "Qle_bool (Qabs (quadrect (fun row => cs + monomial es row) xs ws - out)) (%s * scale)" % T12)
     queue("quadrect", "list nat * Q * list (list Q) * list Q * Q * Q", ok, qcases, qmeta, "C08.Model.quadrect vs quad.quadrect", 20, "From Coq Require Import Qabs.")
 
+    # ================================================================ argument forms of the multi-dimensional rules
+    # the docs promise that scalar endpoints / parameters are repeated d times: n per dimension as list / tuple / array,
+    # a and b scalar / vector / mixed must all give the rule obtained with fully vectorised arguments, whose mass is
+    # checked against the exact volume (or 1) and, for the product rules, against the tensor product of the 1-d rules
+    def forms(n, a0, b0, scal_a, scal_b):
+        """(label, n, a, b) variants equivalent to n per dimension, a = [a0]*d or scal_a, b likewise"""
+        d = len(n)
+        av = [scal_a] * d if scal_a is not None else list(a0)
+        bv = [scal_b] * d if scal_b is not None else list(b0)
+        out = [("list/list/list", list(n), av, bv), ("array/array/array", np.array(n), np.array(av), np.array(bv)),
+               ("tuple/list/array", tuple(n), av, np.array(bv))]
+        if scal_a is not None:
+            out.append(("list/scalar/vector", list(n), scal_a, bv))
+        if scal_b is not None:
+            out.append(("list/vector/scalar", list(n), av, scal_b))
+        if scal_a is not None and scal_b is not None:
+            out += [("list/scalar/scalar", list(n), scal_a, scal_b), ("array/scalar/scalar", np.array(n), scal_a, scal_b)]
+        return av, bv, out
+    one = lambda x: np.ones(np.atleast_2d(x).shape[0]) if np.ndim(x) > 1 else np.ones(np.shape(x))
+    for _ in range(6 * reps):
+        d = rng.choice([2, 3])
+        n = [rng.randrange(2, 7) for _ in range(d)]
+        nodd = [v if v % 2 else v + 1 for v in n]
+        sa = rng.randrange(-8, 8) / 4.0
+        sb = sa + rng.choice([0.5, 2.0, 3.0, 0.25])           # b - a != 1, so (b-a) and (b-a)^d differ
+        vec_a = [rng.randrange(-8, 8) / 4.0 for _ in range(d)]
+        vec_b = [x + rng.choice([0.5, 2.0, 3.0]) for x in vec_a]
+        for scal_a, scal_b in ((sa, sb), (sa, None), (None, sb)):
+            if scal_a is None and scal_b is not None:
+                a_for, b_for = [min(x, sb - 0.5) for x in vec_a], None
+            elif scal_b is None:
+                a_for, b_for = None, [max(x, sa + 0.5) for x in vec_b]
+            else:
+                a_for, b_for = None, None
+            av, bv, variants = forms(n, a_for, b_for, scal_a, scal_b)
+            vol = math.prod(Fraction(y) - Fraction(x) for x, y in zip(av, bv))
+            for name, fn, mass in (("qnwlege", Q.qnwlege, vol), ("qnwtrap", Q.qnwtrap, vol), ("qnwsimp", Q.qnwsimp, vol),
+                                   ("qnwcheb", Q.qnwcheb, vol), ("qnwunif", Q.qnwunif, Fraction(1))):
+                nn = nodd if name == "qnwsimp" else n
+                with quiet_stdout():
+                    rules = [getattr(Q, "qnwlege" if name == "qnwunif" else name)(ni, x, y) for ni, x, y in zip(nn, av, bv)]
+                en, ew = tensor_expected(rules)
+                if name == "qnwunif":
+                    ew = ew / float(vol)
+                for label, nf, af, bf in variants:
+                    if name == "qnwsimp":
+                        nf = type(nf)(nodd) if not isinstance(nf, np.ndarray) else np.array(nodd)
+                    inp = {"call": name, "n": list(nn), "a": af, "b": bf, "form": label}
+                    ctx.case((name, "form", label, tuple(nn), tuple(av), tuple(bv)), nontrivial=True)
+                    ctx.count("argform:%s" % name)
+                    try:
+                        with quiet_stdout():
+                            x, w = fn(nf, af, bf)
+                    except Exception as e:
+                        fail("argument_form", "%s raises %r for a documented argument form" % (name, e), inp)
+                        continue
+                    okf = x.shape == en.shape and np.array_equal(x, en) and np.allclose(w, ew, rtol=1e-13, atol=0)
+                    okf = okf and abs(sum(fl(w)) - mass) <= Fraction(1, 10**10) * mass
+                    if not okf:
+                        fail("argument_form", "%s(%s): not the tensor product of the 1-d rules with scalars repeated d times / wrong total mass" % (name, label),
+                             inp, float(np.sum(w)), float(mass))
+            # qnwequi (all kinds) and quadrect (all kinds): weights volume/N, nodes in the box, quadrect(1) = volume
+            N = int(np.prod(n))
+            for kind in "NWHR":
+                for label, nf, af, bf in variants + ([("scalar-n/vector/vector", N, av, bv)] if scal_a is None or scal_b is None else []):
+                    inp = {"call": "qnwequi", "n": list(n), "a": af, "b": bf, "kind": kind, "form": label}
+                    ctx.case(("qnwequi", "form", label, kind, tuple(n), tuple(av), tuple(bv)), nontrivial=True)
+                    ctx.count("argform:qnwequi")
+                    try:
+                        x, w = Q.qnwequi(nf, af, bf, kind, random_state=rng.randrange(10**6))
+                    except Exception as e:
+                        fail("argument_form", "qnwequi raises %r for a documented argument form" % (e,), inp)
+                        continue
+                    x = np.asarray(x, dtype=float).reshape(N, d)
+                    fw = fl(w)
+                    okf = len(fw) == N and all(abs(wv - vol / N) <= Fraction(1, 10**12) * vol / N for wv in fw)
+                    okf = okf and all(((x[:, i] >= av[i]) & (x[:, i] <= bv[i])).all() for i in range(d))
+                    if not okf:
+                        fail("equi_weights", "qnwequi(%s): weights are not volume/n with volume = prod(b_i - a_i) over the d dimensions, or a node leaves the box" % label,
+                             inp, float(sum(fw)), float(vol))
+            for kind in ("lege", "cheb", "trap", "simp", "N", "W", "H", "R"):
+                for label, nf, af, bf in variants:
+                    if kind == "simp":
+                        nf = type(nf)(nodd) if not isinstance(nf, np.ndarray) else np.array(nodd)
+                    inp = {"call": "quadrect", "kind": kind, "n": list(n), "a": af, "b": bf, "form": label}
+                    ctx.case(("quadrect", "form", label, kind, tuple(n), tuple(av), tuple(bv)), nontrivial=True)
+                    ctx.count("argform:quadrect")
+                    try:
+                        with quiet_stdout():
+                            out = Q.quadrect(one, nf, af, bf, kind=kind, random_state=rng.randrange(10**6))
+                    except Exception as e:
+                        fail("argument_form", "quadrect raises %r for a documented argument form" % (e,), inp)
+                        continue
+                    out = float(np.asarray(out).reshape(-1)[0])
+                    if abs(frac(out) - vol) > Fraction(1, 10**10) * vol:
+                        fail("quadrect_dot", "quadrect(1) is not the volume of the box (%s)" % label, inp, out, float(vol))
+        # qnwbeta / qnwgamma: scalar parameters repeated
+        pa, pb = rng.randrange(13, 512) / 64, rng.randrange(13, 512) / 64
+        for name, fn in (("qnwbeta", Q.qnwbeta), ("qnwgamma", Q.qnwgamma)):
+            rules = [fn(ni, pa, pb) for ni in n]
+            en, ew = tensor_expected([(np.atleast_1d(x), np.atleast_1d(w)) for x, w in rules])
+            for label, nf, af, bf in forms(n, None, None, pa, pb)[2]:
+                inp = {"call": name, "n": list(n), "a": af, "b": bf, "form": label}
+                ctx.case((name, "form", label, tuple(n), pa, pb), nontrivial=True)
+                ctx.count("argform:%s" % name)
+                try:
+                    x, w = fn(nf, af, bf)
+                except Exception as e:
+                    fail("argument_form", "%s raises %r for a documented argument form" % (name, e), inp)
+                    continue
+                if not (x.shape == en.shape and np.array_equal(x, en) and np.allclose(w, ew, rtol=1e-13, atol=0) and abs(float(np.sum(w)) - 1) < 1e-6):
+                    fail("argument_form", "%s(%s): not the tensor product of the 1-d rules with scalar parameters repeated" % (name, label), inp, float(np.sum(w)), 1.0)
+        # qnwnorm / qnwlogn: mu None / scalar / vector, sig2 None / matrix
+        U = np.triu(np.array([[rng.randrange(-4, 5) / 4.0 for _ in range(d)] for _ in range(d)]))
+        for i in range(d):
+            U[i, i] = rng.randrange(1, 5) / 4.0
+        sig = U.T @ U
+        ms = rng.randrange(-8, 8) / 4.0
+        for label, nf, mu, s2, emu, es2 in (("list/None/None", list(n), None, None, [0.0] * d, np.eye(d)),
+                                            ("array/scalar-mu/None", np.array(n), ms, None, [ms] * d, np.eye(d)),
+                                            ("tuple/vector-mu/matrix", tuple(n), [ms] * d, sig, [ms] * d, sig),
+                                            ("list/scalar-mu/matrix", list(n), ms, sig, [ms] * d, sig),
+                                            ("list/array-mu/nested-list", list(n), np.array([ms] * d), sig.tolist(), [ms] * d, sig)):
+            inp = {"call": "qnwnorm", "n": list(n), "mu": mu, "sig2": None if s2 is None else np.asarray(s2).tolist(), "form": label}
+            ctx.case(("qnwnorm", "form", label, tuple(n), ms, tuple(sig.ravel())), nontrivial=True)
+            ctx.count("argform:qnwnorm")
+            try:
+                x, w = Q.qnwnorm(nf, mu, s2)
+                xl_, wl_ = Q.qnwlogn(nf, mu, s2)
+            except Exception as e:
+                fail("argument_form", "qnwnorm/qnwlogn raises %r for a documented argument form" % (e,), inp)
+                continue
+            x = np.asarray(x, dtype=float).reshape(len(w), d)
+            fx, fw = fl2(x), fl(w)
+            tol = Fraction(1, 10**10)
+            mean = [sum(wv * row[i] for row, wv in zip(fx, fw)) for i in range(d)]
+            okf = len(fw) == int(np.prod(n)) and abs(sum(fw) - 1) <= tol and all(abs(mean[i] - frac(emu[i])) <= tol * (1 + abs(frac(emu[i]))) for i in range(d))
+            for i in range(d):
+                for j in range(d):
+                    cij = sum(wv * (row[i] - frac(emu[i])) * (row[j] - frac(emu[j])) for row, wv in zip(fx, fw))
+                    okf = okf and abs(cij - frac(es2[i][j])) <= tol * (1 + abs(frac(es2[i][j])))
+            okf = okf and np.array_equal(np.asarray(xl_).reshape(len(w), d), np.exp(x)) and np.array_equal(wl_, w)
+            if not okf:
+                fail("argument_form", "qnwnorm/qnwlogn(%s): mass / mean / covariance not reproduced or qnwlogn not the exponential image" % label, inp)
+
     from concurrent.futures import ThreadPoolExecutor as _TPE
 
     def _one(job):
